@@ -279,6 +279,8 @@ struct Msg {
     reference: Option<usize>,
     /// dependencies by the specification's rule (DepsFor), used to schedule first deliveries
     spec_deps: BTreeSet<usize>,
+    /// plaintext of a valid application message (or of the message a forged copy was made from)
+    payload: Option<String>,
 }
 
 struct World {
@@ -348,7 +350,7 @@ impl World {
         };
         let idx = self.msgs.len();
         self.by_hash.insert(op.hash(), idx);
-        self.msgs.push(Msg { op, author, kind, cls: cls.to_string(), act: act.to_string(), q, acc: acc.to_string(), reference, spec_deps });
+        self.msgs.push(Msg { op, author, kind, cls: cls.to_string(), act: act.to_string(), q, acc: acc.to_string(), reference, spec_deps, payload: None });
         idx
     }
 
@@ -420,6 +422,9 @@ impl World {
             }
             let (act, tq, tacc) = if kind == "auth" { (op, q, acc) } else { ("", 0, "") };
             let idx = self.register(o, p, "valid", act, tq, tacc, deps);
+            if kind == "app" {
+                self.msgs[idx].payload = Some(format!("payload-{}", n + 1));
+            }
             mine.insert(idx);
             out.push(idx);
         }
@@ -587,7 +592,12 @@ impl World {
         ];
         let deps = if no_deps.contains(&cls) { BTreeSet::new() } else { self.deps_for(applied_by, kind) };
         let op = forge(&self.peers[by], args).await;
-        Some(self.register(op, by, cls, "", 0, "", deps))
+        let idx = self.register(op, by, cls, "", 0, "", deps);
+        if cls == "app_unknown_dep" {
+            let k = self.latest(|m| m.cls == "valid" && m.kind == "app")?;
+            self.msgs[idx].payload = self.msgs[k].payload.clone();
+        }
+        Some(idx)
     }
 }
 
@@ -605,7 +615,7 @@ const ALL_CLASSES: [&str; 27] = [
 
 /// Defects of the unchanged tree that are listed in known_findings.json: the harness reports them
 /// under exactly these signatures and the recorded trace marks the event (Trace_Spaces skips it).
-const KNOWN_SIGNATURES: [&str; 2] = ["redelivery-emits-events:kb", "panic:auth-group-missing"];
+const KNOWN_SIGNATURES: [&str; 1] = ["redelivery-emits-events:kb"];
 
 struct ProcOut {
     verdict: Verdict,
@@ -710,10 +720,13 @@ impl Exec {
         };
         let nev = events.len();
         for (_, data) in &events {
-            if let Some(d) = data {
+            if let (Some(d), false) = (data, again) {
+                // every message carrying this plaintext (the original and forged copies of its
+                // ciphertext) may surface it once
+                let carriers = self.w.msgs.iter().filter(|x| x.payload.as_deref() == Some(d.as_str())).count() as u32;
                 let c = self.app_seen[p].entry(d.clone()).or_insert(0);
                 *c += 1;
-                if *c > 1 && !again {
+                if *c > carriers.max(1) {
                     violations.push((
                         "app-event-twice".into(),
                         format!("{} received the Application event for {d:?} {} times", PEER_NAMES[p], *c),
